@@ -1,7 +1,8 @@
 (* C06 Atomization splits a lattice value into mergeable atoms.
    For EVERY atomizable type code t (unit, SetUnion, MapUnion<_, v>, WithBot<v>, WithTop<v> over
-   atomizable v: every nesting) and every well-formed value a.  Union-find atomization is the
-   union-find engine's. *)
+   atomizable v: every nesting) and every well-formed value a; and for the union-find lattice
+   (model of union_find.rs: Lattice/UF.v by the union-find engine; theorems at the end). *)
+From HV Require Import Lattice.UF Lattice.PUF Lattice.AtomUF Lattice.PAtomUF.
 From HV Require Import Lattice.Univ Lattice.Atom Lattice.PAtom.
 From Coq Require Import Permutation.
 
@@ -55,6 +56,43 @@ Theorem C06_holds_b_sound : forall t, atomizable t = true ->
     C06_holds_b t (model_aobs t a acc) = true.
 Proof. exact holds_b_model. Qed.
 Print Assumptions C06_holds_b_sound.
+
+(* ---------------------------------------------------------------- UnionFind (union_find.rs)
+   [uf_atomize]: the non-trivial entries (item != parent), each as a singleton-map union-find.
+   W uf_ops a: the parent map is a forest with distinct keys (UF.uf_wf). *)
+Theorem C06_uf_atoms_nonbot : forall a : uf, W uf_ops a ->
+  Forall (fun x => W uf_ops x /\ isbot uf_ops x = false) (uf_atomize a).
+Proof. exact uf_atoms_nonbot. Qed.
+Print Assumptions C06_uf_atoms_nonbot.
+
+Theorem C06_uf_empty_iff_bot : forall a : uf, uf_atomize a = [] <-> isbot uf_ops a = true.
+Proof. exact uf_atoms_nil_iff_bot. Qed.
+Print Assumptions C06_uf_empty_iff_bot.
+
+(* merging the atoms, in any order, into Default gives a value equal to a under the lattice's own
+   equality, i.e. (second theorem) exactly the same partition *)
+Theorem C06_uf_remerge : forall (a : uf) (l : list uf), W uf_ops a -> Permutation l (uf_atomize a) ->
+  E uf_ops (fold_left (fun s x => m uf_ops s x) l uf_dflt) a.
+Proof. exact uf_remerge_dflt. Qed.
+Print Assumptions C06_uf_remerge.
+
+Theorem C06_uf_remerge_partition : forall (a : uf) (l : list uf), W uf_ops a ->
+  Permutation l (uf_atomize a) ->
+  forall x y, SameRoot (fold_left (fun s x => m uf_ops s x) l uf_dflt) x y <-> SameRoot a x y.
+Proof. exact uf_remerge_partition. Qed.
+Print Assumptions C06_uf_remerge_partition.
+
+Theorem C06_uf_remerge_into : forall (a acc : uf) (l : list uf), W uf_ops a -> W uf_ops acc ->
+  Permutation l (uf_atomize a) ->
+  W uf_ops (fold_left (fun s x => m uf_ops s x) l acc) /\
+  E uf_ops (fold_left (fun s x => m uf_ops s x) l acc) (m uf_ops acc a).
+Proof. exact uf_remerge_acc. Qed.
+Print Assumptions C06_uf_remerge_into.
+
+Example C06_uf_nonvacuous :
+  W uf_ops [(1, 1); (2, 1); (3, 2); (5, 5)]%N /\
+  uf_atomize [(1, 1); (2, 1); (3, 2); (5, 5)]%N = [[(2, 1)]; [(3, 2)]]%N.
+Proof. split; reflexivity. Qed.
 
 (* non-vacuity: a nested atomizable code, a well-formed value with a bottom-valued entry, an
    entry holding the adjoined top and one holding Some(bottom); its atoms *)
